@@ -148,6 +148,9 @@ func cmdCheck(args []string) {
 		if !relevant {
 			continue
 		}
+		if fc.AssumeRequires {
+			trusted = append(trusted, "preconditions of "+fc.Key()+" are assumed at its call sites (facts about a dependency's data)")
+		}
 		if fc.Trusted {
 			trusted = append(trusted, "trusted contract (assumed at call sites, body not verified): "+fc.Key())
 			continue
